@@ -210,9 +210,38 @@ def rule_D_inspect(toks, au):
     return out
 
 
+def rule_D_hooks(toks, au):
+    """#[cfg(feature = "verif-hooks")] STATEMENT;   ->  dropped: the verified configuration is the default one (feature off)"""
+    pat = ["#", "[", "cfg", "(", "feature", "=", '"verif-hooks"', ")", "]"]
+    while True:
+        z = find_seq(toks, pat)
+        if z < 0:
+            return toks
+        k = z + len(pat)
+        depth = 0
+        # the guarded statement / item ends at `;` or at the `}` of its (last) block: `if c { .. }`, `pub mod m { .. }`
+        while k < len(toks):
+            if toks[k].kind == "p" and toks[k].text in OPEN:
+                depth += 1
+            elif toks[k].kind == "p" and toks[k].text in CLOSE:
+                depth -= 1
+                if depth == 0 and toks[k].text == "}" and not (k + 1 < len(toks) and is_id(toks[k + 1], "else")):
+                    break
+            elif is_p(toks[k], ";") and depth == 0:
+                break
+            k += 1
+        if k >= len(toks):
+            raise Undecided("unterminated statement under #[cfg(feature = \"verif-hooks\")]")
+        au.note("D", "statement under #[cfg(feature = \"verif-hooks\")] (feature off in the verified configuration)")
+        if k + 1 < len(toks):
+            toks[k + 1].ws = toks[z].ws + toks[k + 1].ws if not toks[k + 1].ws.strip() else toks[k + 1].ws
+        del toks[z:k + 1]
+
+
 def rule_D(toks, au):
     """drop statement-level logging macros, span statements, inner `use` items, and
     let-bindings that only feed dropped statements (initialiser = format!/span macro)"""
+    toks = rule_D_hooks(toks, au)
     toks = rule_D_inspect(toks, au)
     out, i, n = [], 0, len(toks)
     while i < n:
@@ -987,7 +1016,7 @@ def collect_only_flag(lockflags, fname):
     return False
 
 
-def rule_H(toks, au, h, lockflags=False, fname=None):
+def rule_H(toks, au, h, lockflags=False, fname=None, force_flags=()):
     st = h.st
     # 1. guard elimination:  let [mut] G = self.F.(lock|read|write)() [.unwrap()];   (after rule A)
     #    also  let [mut] G = <alias path>.lock();  for foreign lock paths declared in the hoist table
@@ -1037,6 +1066,10 @@ def rule_H(toks, au, h, lockflags=False, fname=None):
                         for q in range(e + 1, scope_end - 2):
                             if is_id(toks[q], "self") and is_p(toks[q + 1], ".") and toks[q + 2].text in h.thread and is_p(toks[q + 3], "("):
                                 flag = True
+                        # recipe opt lockflag=F: keep the flag for F even when no threaded call happens under the guard (an injected
+                        # obligation talks about it)
+                        if F in force_flags:
+                            flag = True
                     if flag:
                         new += _ghost(f"proof {{ vx_held_{F} = {mode}int; }}", toks[i].ws)
                         if F not in held:
